@@ -298,8 +298,11 @@ var curDev [zzsimrt.MaxClients]*Device
 //go:norace
 func setCurDev(d *Device) { curDev[zzsimrt.Cur()] = d }
 
+// (a goroutine the library started reads crypto/rand.Reader on behalf of the
+// caller whose call started it)
+//
 //go:norace
-func getCurDev() *Device { return curDev[zzsimrt.Cur()] }
+func getCurDev() *Device { return curDev[zzsimrt.Root(zzsimrt.Cur())] }
 
 func (globalDev) Read(p []byte) (int, error) {
 	d := getCurDev()
